@@ -749,8 +749,32 @@ def c08_term(case, res):
     return 3
 
 
+def exhaustive_pairs():
+    """small-scope sweep: every pair of tries over the domain {0,1}^arity (all subsets for the
+    2-column shapes, subsets of size <= 2 for the 3-column shapes), inserted in two different
+    orders, observed with every binary operation"""
+    import itertools
+    out = []
+    tail = [["cmp", 0], ["cmp", 1], ["eq", 0], ["is_bot", 0], ["is_bot", 1], ["join", 0], ["iter", 0],
+            ["merge", 0], ["iter", 0], ["cmp", 0], ["eq", 0], ["lmerge", 1], ["eq", 1]]
+    for shape in ("k1v1", "k2v0", "k0v2", "k2v1", "k1v2"):
+        arity = GHT_SHAPES[shape]["arity"]
+        rows = [list(r) for r in itertools.product((0, 1), repeat=arity)]
+        if arity == 2:
+            subsets = [list(c) for k in range(len(rows) + 1) for c in itertools.combinations(rows, k)]
+        else:
+            subsets = [list(c) for k in range(3) for c in itertools.combinations(rows, k)]
+        for a in subsets:
+            for b in subsets:
+                ops = [["ins", 0, r] for r in a] + [["ins", 1, r] for r in reversed(b)] + tail
+                out.append({"k": "ght", "shape": shape, "ops": ops, "src": "exh"})
+    return out
+
+
 def gen_c08(rng, tier, n):
     cases = load_corpus("C08")
+    if tier == "thorough":
+        cases += exhaustive_pairs()
     while len(cases) < n:
         r = rng.below(10)
         if r < 5:
